@@ -10,6 +10,7 @@
 //!   width 0xFF     : insert `value & 0xFF` repeated (value >> 8) times at offset
 //!   width 0xFE/0xFD: replace the text token at offset (up to the next TAB CR LF , = ; space) by `value` in decimal (u64 / i64)
 //!   width 0xFC     : delete the text token at offset
+//!   width 0xFB     : insert multi-byte UTF-8 text number `value` of a fixed table at offset
 //! progress: the index of the case in flight is written here before each case so that a process
 //! death (allocation failure, stack overflow) is attributable and the batch resumable.
 use crate::json::J;
@@ -179,6 +180,9 @@ fn run_kind(kind: &str, buf: &[u8], aux: &Aux, case: usize) -> u8 {
     }
 }
 
+/// multi-byte text for width code 0xFB (same table as vlib/faults.py UTF8_INSERTS)
+const UTF8_INSERTS: [&[u8]; 14] = [&[196, 176], &[225, 186, 158], &[195, 169], &[230, 151, 165, 230, 156, 172, 232, 170, 158], &[226, 128, 168], &[240, 157, 132, 158], &[199, 133], &[239, 172, 131], &[13], &[9, 9], &[194, 160], &[239, 187, 191], &[196, 176, 196, 176, 196, 176, 196, 176], &[195, 159]];
+
 fn mutate(seed: &[u8], off: usize, width: u8, value: u64) -> Vec<u8> {
     let mut b = seed.to_vec();
     match width {
@@ -200,6 +204,12 @@ fn mutate(seed: &[u8], off: usize, width: u8, value: u64) -> Vec<u8> {
                     b[off + i] = be[8 - w + i];
                 }
             }
+        }
+        0xFB => {
+            let at = off.min(b.len());
+            let tail = b.split_off(at);
+            b.extend_from_slice(UTF8_INSERTS[(value as usize) % UTF8_INSERTS.len()]);
+            b.extend(tail);
         }
         0xFC | 0xFD | 0xFE => {
             let at = off.min(b.len());
@@ -269,7 +279,16 @@ pub fn fault_batch(_ctx: &mut Ctx, a: &[String]) -> Out {
         let off = u32::from_le_bytes(r[0..4].try_into().unwrap()) as usize;
         let width = r[4];
         let value = u64::from_le_bytes(r[5..13].try_into().unwrap());
-        let buf = mutate(&seed, off, width, value);
+        // every second case is handed over at an odd address (cases alternate over skews 0..3)
+        let skew = (i + _ctx.skew) % 4;
+        let mut buf = mutate(&seed, off, width, value);
+        if skew > 0 {
+            let mut w = Vec::with_capacity(buf.len() + skew);
+            w.resize(skew, 0xA5);
+            w.append(&mut buf);
+            buf = w;
+        }
+        let buf = &buf[skew..];
         if let Some(f) = pf.as_mut() {
             let _ = f.seek(std::io::SeekFrom::Start(0));
             let _ = f.write_all(&(i as u64).to_le_bytes());
@@ -285,7 +304,7 @@ pub fn fault_batch(_ctx: &mut Ctx, a: &[String]) -> Out {
         let cpu0 = mon::cpu_us();
         let res = {
             let _c = mon::Counted::new();
-            let r = catch_unwind(AssertUnwindSafe(|| run_kind(kind, &buf, &aux, i)));
+            let r = catch_unwind(AssertUnwindSafe(|| run_kind(kind, buf, &aux, i)));
             match r {
                 Ok(v) => Ok(v),
                 Err(p) => {
